@@ -5,6 +5,6 @@ patch="$1"; pid="$2"; tier="${3:-quick}"
 cd /repo || exit 9
 if [ -n "$(git status --porcelain)" ]; then echo "/repo not clean"; exit 9; fi
 git apply "$patch" || { echo "patch does not apply"; exit 9; }
-cd /verif && python3-vt -m pyvc.check "$pid" --tier "$tier" > /tmp/try_seed.out 2>&1; rc=$?
+cd /verif && PYVC_EVIDENCE_DIR=/tmp/try_seed_evidence python3-vt -m pyvc.check "$pid" --tier "$tier" > /tmp/try_seed.out 2>&1; rc=$?
 git -C /repo checkout -- .
 echo "exit=$rc"; grep -E "^\[C|VIOLATION|UNDECIDED|ENGINE|KNOWN|FAILED obligation|runtime scenario" /tmp/try_seed.out | head -${4:-12}
